@@ -49,9 +49,11 @@ def main():
 
     def rewrite(cmd):
         # the agent's command names its own worktree / target; point it at ours
-        cmd = re.sub(r"/tmp/seed/wt/\w+", wt, cmd)
+        cmd = re.sub(r"/tmp/seed/wt\d?/\w+", wt, cmd)
         cmd = re.sub(r"CARGO_TARGET_DIR=\S+", "CARGO_TARGET_DIR=%s" % target, cmd)
-        cmd = re.sub(r"/tmp/seed/out/\w+", out.rstrip("/"), cmd)
+        cmd = re.sub(r"\bTMPDIR=\S+", "TMPDIR=%s" % tmpd, cmd)
+        cmd = re.sub(r"/tmp/seed/out\d?/\w+", out.rstrip("/"), cmd)
+        assert "/tmp/seed/wt" not in cmd and "/tmp/seed/tgt" not in cmd, cmd
         return cmd
     try:
         if "--checks-only" in a:
@@ -102,7 +104,14 @@ def main():
     finally:
         sh("git -C %s worktree remove --force %s" % (REPO, wt))
         shutil.rmtree(wt, ignore_errors=True)
+        shutil.rmtree(tmpd, ignore_errors=True)
     det = {}
+    if "--demo-only" in a:
+        # re-run of the demonstration only: keep the suite result and the checks' verdicts of the previous run
+        old = os.path.join(out, "verify.json")
+        prev = json.load(open(old)) if os.path.exists(old) else {}
+        res.update({k: v for k, v in prev.items() if k.startswith("suite")})
+        return finish(res, prev.get("checks", {}), out, a + (["--skip-suite"] if "suite_ok" not in res else []))
     if "--scratch" in a:
         # same checks, but against a scratch copy of /repo (used while something else is reading /repo)
         sc = "/tmp/seedv/repo-%s" % os.path.basename(out.rstrip("/"))
